@@ -189,6 +189,16 @@ class World:
         o2 = S.outcome(sk._StickyMiddleware.process_response, self.mw, req, resp, None, True)
         if o2.raised and rec["crashed"] is None:
             rec["crashed"] = ("process_response", o2.exc)
+        # a method that was aborted by a raising step - or that raises for reasons of its own after its last step - is
+        # answered 200 + X-VGI-RPC-Error: true, with the session headers of what it did before it failed still on it
+        # (the server does not roll a session back); the client must read those headers all the same
+        aborted = any(err is not None and aborts[i] for i, (_, err, _) in enumerate(rec["steps"]))
+        failed = aborted or (rec["dispatched"] and S.choose(2) == 1)
+        rec["method_failed"] = failed
+        if failed:
+            from vgi_rpc.http._common import RPC_ERROR_HEADER
+
+            out_headers[RPC_ERROR_HEADER.lower() if self.lower else RPC_ERROR_HEADER] = "true"
         rec["response_headers"] = dict(out_headers)
         rec["registered"] = set(self.entries) - n_entries_before
         rec["locks_after"] = list(S.ghost.get("__held__", []))
